@@ -209,4 +209,5 @@ package chipauth
 //@   proves "mac-verified-at-the-captured-counter": result1 == nil && len(evidence.SmSsc) > 0 ==> len(evidence.SmSsc) == len(sm.ssc) && beS(evidence.SmSsc) >= 1 && beS(sm.ssc) == beS(evidence.SmSsc)
 //@   proves "legacy-bundle-counter-two": result1 == nil && len(evidence.SmSsc) == 0 ==> beS(sm.ssc) == 2
 //@   proves "captured-response-accepted-with-status-9000": result1 == nil ==> rApdu != nil && rApdu.Status == 36864
+//@   assigns nothing
 //@   safety all
